@@ -118,6 +118,14 @@ def judge(pre, op, post, res, obs, meta):
         nums = [x["number"] for x in post_g]
         if nums != list(range(1, len(nums) + 1)):
             V("numbering-gap", f"{af}: generation numbers on disk {nums}")
+    # (2b) the history at the command's root is always touched: a run that ends with one of the result codes has added its manifest
+    # there (also when nothing recordable is left in the folder, or everything is excluded)
+    R = op[1].get("root") or ""
+    if res.exc is None and res.exit in (0, 10, 11):
+        n_new = len([g for g in ref.generations(post, R) if g["path"] not in pre])
+        if n_new == 0:
+            V("no-generation-at-root", f"{ops.label(op)} (exit {res.exit}): the history of '{R or '.'}' received no new manifest",
+              empty=not [p for p in ref.media(pre) if (p.startswith(R + "/") if R else True)])
     # (3) reload with the tool's own loader
     if not v and obs and obs.get("root") and os.path.isdir(obs["root"]):
         try:
